@@ -150,8 +150,39 @@ func BoolC(b bool) *Term {
 	return FalseT
 }
 
+var bvSmall [4][258]*Term
+
+func init() {
+	for i, w := range []int{8, 16, 32, 64} {
+		for v := 0; v < 257; v++ {
+			bvSmall[i][v] = &Term{Op: OConst, Sort: BV(w), Val: uint64(v) & mask(w)}
+		}
+		bvSmall[i][257] = &Term{Op: OConst, Sort: BV(w), Val: mask(w)}
+	}
+}
+
 func BVC(w int, v uint64) *Term {
-	return &Term{Op: OConst, Sort: BV(w), Val: v & mask(w), ID: 0}
+	v &= mask(w)
+	var i int
+	switch w {
+	case 8:
+		i = 0
+	case 16:
+		i = 1
+	case 32:
+		i = 2
+	case 64:
+		i = 3
+	default:
+		return &Term{Op: OConst, Sort: BV(w), Val: v}
+	}
+	if v < 257 {
+		return bvSmall[i][v]
+	}
+	if v == mask(w) {
+		return bvSmall[i][257]
+	}
+	return &Term{Op: OConst, Sort: BV(w), Val: v}
 }
 
 func FPC64(f float64) *Term {
